@@ -1,11 +1,14 @@
 package main
 
 import (
+	"encoding/json"
 	"errors"
 	"fmt"
 	"net/http"
+	"os"
 	"strings"
 	"sync/atomic"
+	"unicode/utf8"
 
 	"github.com/jub0bs/cors"
 	"github.com/jub0bs/cors/cfgerrors"
@@ -24,6 +27,9 @@ type c13Case struct {
 	After   bool     `json:"company_after,omitempty"`
 	// Ctx > 0: the rest of the configuration is invalid too (c13Contexts); the defective string must still be named
 	Ctx int `json:"invalid_context,omitempty"`
+	// Earlier: the process has just started and has validated these patterns (each alone, both DangerouslyTolerate*
+	// switches on) before anything else happened (see "fresh processes" in main.go)
+	Earlier []string `json:"earlier_in_a_fresh_process,omitempty"`
 }
 
 // c13Contexts make the rest of a configuration invalid, each in another field.
@@ -43,6 +49,17 @@ var c13Contexts = []func(*cors.Config){nil,
 }
 
 func c13Judge(k c13Case) *vlib.Failure {
+	if len(k.Earlier) > 0 {
+		if os.Getenv(childEnv) == "" {
+			if d, bad := inFreshProcess("C13", []c13Case{k})[0]; bad {
+				return vlib.Failf("%s", d)
+			}
+			return nil
+		}
+		for _, p := range k.Earlier {
+			cors.NewMiddleware(cors.Config{Origins: []string{p}, ExtraConfig: cors.ExtraConfig{DangerouslyTolerateInsecureOrigins: true, DangerouslyTolerateSubdomainsOfPublicSuffixes: true}})
+		}
+	}
 	list := []string{k.Pattern}
 	if k.After {
 		list = append(list, k.Company...)
@@ -472,6 +489,7 @@ func checkC13(c *vlib.Ctx) (string, string) {
 			break
 		}
 	}
+	c13FreshProcessPass(c, ck, bases, defects)
 	c.Sample(c13Case{Pattern: bases[len(bases)/2].String(), Valid: true, How: "documented grammar"})
 	c.States.Add(nValid + nInvalid + nCompany)
 	c.Transitions.Add(2*nValid + nInvalid + nCompany)
@@ -587,4 +605,75 @@ func checkC13(c *vlib.Ctx) (string, string) {
 	return levelMC, rule
 }
 
-func init() { registry["C13"] = checkC13 }
+// c13FreshProcessPass: every base pattern and every defective string (UTF-8 ones: cases travel as JSON) as the
+// first pattern a newly started process ever validates; then all of them are judged in that process.
+func c13FreshProcessPass(c *vlib.Ctx, ck *Checker[c13Case], bases []c13Base, defects []c13Defect) {
+	var battery []c13Case
+	seen := map[string]bool{}
+	add := func(k c13Case) {
+		if utf8.ValidString(k.Pattern) && !seen[k.Pattern] {
+			seen[k.Pattern] = true
+			battery = append(battery, k)
+		}
+	}
+	// every base pattern; the defects of every stride-th base, the stride chosen so that the battery stays near
+	// 1500 [4000] strings (each base has the same operators applied, so the operators are all represented)
+	want := vlib.Pick(c, 1500, 4000)
+	perBase := 0
+	for _, d := range defects {
+		if _, ok := d.f(bases[0]); ok {
+			perBase++
+		}
+	}
+	stride := 1 + len(bases)*perBase/want
+	for bi, b := range bases {
+		add(c13Case{Pattern: b.String(), Valid: true, How: "documented grammar"})
+		if bi%stride != 0 {
+			continue
+		}
+		for _, d := range defects {
+			if m, ok := d.f(b); ok && len(m) < 400 {
+				add(c13Case{Pattern: m, How: d.name + " applied to " + b.String()})
+			}
+		}
+	}
+	var firsts []string
+	for i := range battery {
+		firsts = append(firsts, battery[i].Pattern)
+	}
+	c.ParRange(int64(len(firsts)), 1, "C13 fresh processes", func(i int64) {
+		seq := append([]c13Case(nil), battery...)
+		seq[0].Earlier = []string{firsts[i]}
+		c.States.Add(1)
+		c.Transitions.Add(int64(len(seq)))
+		c.Evaluations.Add(int64(len(seq)))
+		fails := inFreshProcess("C13", seq)
+		for j := range seq {
+			d, bad := fails[j]
+			if !bad {
+				continue
+			}
+			k := seq[j]
+			k.Earlier = []string{firsts[i]}
+			if ck.Judge(k) == nil {
+				for _, e := range seq[:j] {
+					k.Earlier = append(k.Earlier, e.Pattern)
+				}
+			}
+			ck.Report(k, vlib.Failf("%s", afterNote(len(k.Earlier), d)))
+			break
+		}
+	})
+	c.Set("fresh_process_histories", map[string]int{"first_validations": len(firsts), "patterns_judged_afterwards_each": len(battery)})
+}
+
+func init() {
+	registry["C13"] = checkC13
+	childJudges["C13"] = func(raw json.RawMessage) *vlib.Failure {
+		var k c13Case
+		if err := json.Unmarshal(raw, &k); err != nil {
+			vlib.HarnessError("fresh-process child: cannot decode case: %v", err)
+		}
+		return c13Judge(k)
+	}
+}
